@@ -21,3 +21,15 @@ CHECKS["C15"] = {
     "assumptions": ["symbolic runes are ASCII (0..0x7f); non-ASCII runes only as concrete members", "go/ssa v0.29.0 SSA of /repo is faithful to the compiled code", "z3 5.1.0 answers are sound"],
     "outside": ["inputs whose single token spans more runes than the bound", "concurrent ParseSrc calls (frame argument only)"],
 }
+
+CHECKS["C17"] = {
+    "runs": [R("./ast/astutil", {"fn": r"^ZZ_C17_"})],
+    "expect_asserts": [r"C17\.walk\.no-error/.*", r"C17\.walk\.child-presented-once/.*", r"C17\.stop\.returns-callback-error/.*"],
+    "bounds": {"node kinds": "all struct types of package ast embedding StmtImpl/ExprImpl/OperatorImpl, derived by go/types at check time (enumerated by forking)",
+               "list-valued child fields": "0..2 elements", "optional children": "present / nil",
+               "early stop": "callback fails at call j, j symbolic in 0..63 (solver-decided)"},
+    "stubs": [],
+    "assumptions": ["IfStmt.ElseIf holds *IfStmt and SwitchStmt.Cases holds *SwitchCaseStmt, as the grammar actions build them",
+                    "completeness for whole programs follows by induction on the tree from the per-kind step lemma"],
+    "outside": ["node kinds are enumerated by forking, not by the solver; the solver's part is the early-stop index"],
+}
